@@ -25,7 +25,7 @@ m = {
  "engines": [{"name": "gosmx", "path": "engine", "serves_properties": sorted(reg),
               "kind_free_text": "bounded symbolic executor for go/ssa (x/tools v0.29.0 interp, modified) + SMT portfolio: z3 5.1 incremental, cvc5 --solve-bv-as-int=sum, cvc5, z3 4.8; cvc5 strings + z3 for string-mode harnesses"}],
  "checks": [], "not_applicable": [],
- "notes": "DESIGN.md (section 11 = as built) describes the engine, the environment models and, per property, what is decided, the bounds and what lies outside. known_findings.jsonl lists recorded findings (JSON lines: F8 for C08, F10 for C17) and repaired defects (fixed: lines, one unguarded 'fix:' commit in /repo each: " + ", ".join(FIXES) + "). No source hooks: harnesses and models are overlays. not_applicable is empty because every property has clauses decided by a solver-based check; the clauses that are not (real zstd/sha256/protobuf/TLS/LDAP libraries, URL grammar of parseRequestURL, that flag names / environment variables / YAML keys reach their values inside urfave/cli and yaml.v3, power-loss semantics, weak memory) are listed per property under 'Outside the claim' in level_note and in DESIGN.md 11.3. seeded/ holds 56 independently written breaking changes with their demonstrations; seeded/RESULTS.md records that the quick check of the property concerned reports each of them.",
+ "notes": "DESIGN.md (section 11 = as built) describes the engine, the environment models and, per property, what is decided, the bounds and what lies outside. known_findings.jsonl lists recorded findings (JSON lines: F8 for C08, F10 for C17) and repaired defects (fixed: lines, one unguarded 'fix:' commit in /repo each: " + ", ".join(FIXES) + "). No source hooks: harnesses and models are overlays. not_applicable is empty because every property has clauses decided by a solver-based check; the clauses that are not (real zstd/sha256/protobuf/TLS/LDAP libraries, URL grammar of parseRequestURL, that flag names / environment variables / YAML keys reach their values inside urfave/cli and yaml.v3, power-loss semantics, weak memory) are listed per property under 'Outside the claim' in level_note and in DESIGN.md 11.3. seeded/ holds 82 independently written breaking changes with their demonstrations; seeded/RESULTS.md records that the quick check of the property concerned reports each of them.",
 }
 for p in props:
     pid = p["id"]
